@@ -25,6 +25,7 @@ class Ctx:
         self.assumptions = []
         self.notes = []
         self._fb_cache = {}
+        self.broken_rules = []
         # self-tests analyse a scratch copy (--root): their evidence must never overwrite the real one
         self.evdir = os.path.join(VERIF, 'evidence') if os.path.abspath(self.root) == '/repo' else \
             os.path.join('/tmp', 'yaclib_verif_selftest', 'evidence')
@@ -77,6 +78,16 @@ class Ctx:
     def broken(self, msg):
         raise facts.AnalysisBroken(msg)
 
+    def guard(self, thunk):
+        """run one rule; if it cannot be carried out (AnalysisBroken) remember that and go on with the other rules:
+        a violation found by another rule is still a violation, and is reported (exit 1); only when nothing is
+        reported does the broken rule make the whole check exit 2"""
+        try:
+            return thunk()
+        except facts.AnalysisBroken as e:
+            self.broken_rules.append(str(e))
+            return None
+
     # ---- finish
     def finish(self):
         kf_path = os.path.join(VERIF, 'known_findings.json')
@@ -89,9 +100,9 @@ class Ctx:
         # non-vacuity
         for name, r in self.rules.items():
             if r['instances'] < r['minimum']:
-                raise facts.AnalysisBroken('rule %s matched %d instances, fewer than the hand-confirmed minimum %d '
-                                           '(anchor vanished or idiom not recognised)' % (name, r['instances'],
-                                                                                          r['minimum']))
+                self.broken_rules.append('rule %s matched %d instances, fewer than the hand-confirmed minimum %d '
+                                         '(anchor vanished or idiom not recognised)' % (name, r['instances'],
+                                                                                        r['minimum']))
         viol = []
         knownhits = []
         seen = set()
@@ -132,7 +143,13 @@ class Ctx:
                         (self.prop, rep['rule'], rep['key'], rep['where'], rep['msg'], rep['detail'], self.prop,
                          self.tier, rep['rule']))
             print('VIOLATION property=%s replay=%s' % (self.prop, p))
-        self.write_evidence(len(viol), [r for r, _ in knownhits])
+        if self.broken_rules and not viol:
+            # nothing to report and part of the analysis could not be carried out: never a pass
+            raise facts.AnalysisBroken('; '.join(self.broken_rules[:3]))
+        for b in self.broken_rules:
+            print('ANALYSIS-BROKEN (this rule only; the violations above stand) property=%s: %s' % (self.prop, b))
+        self.write_evidence(len(viol), [r for r, _ in knownhits],
+                            broken='; '.join(self.broken_rules[:3]) if self.broken_rules else None)
         return 1 if viol else 0
 
     def write_evidence(self, nviol, knownhits, broken=None):
